@@ -280,6 +280,29 @@ def run_case(case):
                 r.violation(f'C13:container-dependence:{np.dtype(dt).name}', f'{tag}: pdf of row {Qn[j].tolist()} given in a {name} '
                             f'is {got[j] if got.shape == want.shape else got.shape!r}, the same values as float64 give {want[j]!r}',
                             case=case)
+    # a model fitted on the BARE ARRAY (its columns are 0..d-1) queried through frames / Series whose labels are a *sliced*
+    # RangeIndex (what `frame.iloc[:, ::-1]` and `series[::-1]` carry): labels decide, not positions
+    if d >= 2:
+        try:
+            gm_arr = tables.fit_gm(pd.DataFrame(df.to_numpy(dtype=float).copy()), cfg if cfg not in ('dict',) else 'default')
+            F = pd.DataFrame(Q.copy())
+            want = np.asarray(gm_arr.probability_density(F.copy()), float)
+            got_rev = np.asarray(gm_arr.probability_density(F.iloc[:, ::-1]), float)
+            got_arr = np.asarray(gm_arr.probability_density(Q.copy()), float)
+            ser = np.ravel(np.asarray(gm_arr.probability_density(F.iloc[3][::-1]), float))
+            lp_rev = np.asarray(gm_arr.log_probability_density(F.iloc[:, ::-1]), float)
+            lp = np.asarray(gm_arr.log_probability_density(F.copy()), float)
+            r.tr(6)
+            r.ev(4 * m)
+            for name, a_, b_ in (('column-reversed frame (RangeIndex labels)', got_rev, want), ('plain array', got_arr, want),
+                                 ('reversed Series (RangeIndex labels)', ser, want[3:4]), ('log density, column-reversed frame', lp_rev, lp)):
+                if a_.shape != b_.shape or not np.allclose(a_, b_, rtol=1e-8, atol=0, equal_nan=True):
+                    r.violation('C13:column-order-dependence:range-index', f'{tag}: model fitted on the bare array: density through a '
+                                f'{name} = {a_[:2].tolist()}, through the frame in training order {b_[:2].tolist()}', case=case)
+                    break
+        except Exception as e:
+            r.violation(f'C13:array-model:raises:{type(e).__name__}', f'{tag}: model fitted on the bare array, queried through '
+                        f'frames with RangeIndex labels: raised {type(e).__name__}: {e}', case=case)
     for i in (0, 5, 13, m - 1):
         one_series = pdf_of(base_df.iloc[i])
         one_series_perm = pdf_of(base_df.iloc[i][cols[::-1]])
